@@ -24,8 +24,12 @@ KINDS = ["req", "def", "fac", "kreq", "kdef", "noinit", "optnone", "optdef", "co
 def bounds(tier):
     return dict(tier=tier, max_layout_length=4 if tier == "quick" else 5, kinds=KINDS,
                 splits="every base/child split below the maximum length; at the maximum length no split and a split after 2 fields",
-                override="first defaulted base field re-declared in the child", entry_points=["mixin", "codec"],
+                override="first defaulted base field re-declared in the child; three-level variants (override in the middle class, bottom class inherits)", entry_points=["mixin", "codec"],
                 presence=["absent", "present", "present-null (nullable kinds)"])
+
+
+# the child re-declares f0: a new default for a defaulted field, a default for a required one, a non-None default for Optional = None
+OVERRIDE_DEFAULT = {"def": 900, "optdef": 901, "kdef": 902, "req": 903, "optnone": 904, "kreq": 905}
 
 
 def mkfield(kind, i):
@@ -69,9 +73,12 @@ def units(tier):
             for split in range(0, n):
                 if n == maxlen and split not in (0, 2):
                     continue   # the longest layouts are split in one place only (stated in bounds)
-                overrides = (False, True) if (split and layout[0] in ("def", "optdef", "kdef")) else (False,)
+                overrides = (False, True) if (split and layout[0] in ("def", "optdef", "kdef", "req", "optnone", "kreq")) else (False,)
                 for ov in overrides:
                     out.append((layout, split, ov))
+                    if split and (n < maxlen or ov):
+                        # three levels: Base <- Child (declares / overrides) <- Bottom (inherits without re-annotating)
+                        out.append((layout, split, "middle" if ov else "bottom"))
     return out
 
 
@@ -94,14 +101,17 @@ def build(layout, split, override, mixin, ctx):
         Base = make_dataclass("Base", fields[:split], bases=bases, namespace=ns_b)
         ctx.ns["Base"] = Base
         child_fields = fields[split:]
-        if override:
+        if override in (True, "middle"):
             k0 = layout[0]
-            new_default = {"def": 900, "optdef": 901, "kdef": 902}[k0]
+            new_default = OVERRIDE_DEFAULT[k0]
             t0 = fields[0][1]
-            child_fields = [("f0", t0, field(default=new_default, kw_only=(k0 == "kdef")))] + child_fields
+            child_fields = [("f0", t0, field(default=new_default, kw_only=(k0 in ("kdef", "kreq"))))] + child_fields
         if iv:
             ns["__post_init__"] = _post_init(iv[0])
         cls = make_dataclass("Child", child_fields, bases=(Base,), namespace=ns)
+        if override in ("middle", "bottom"):
+            ctx.ns["Child"] = cls
+            cls = make_dataclass("Bottom", [("zz", int, field(default=1, kw_only=True))], bases=(cls,), namespace={"__module__": ctx.modname})
     else:
         if iv:
             ns["__post_init__"] = _post_init(iv[0])
@@ -138,14 +148,15 @@ def expected(layout, override, present):
         elif p == 2:
             exp[name] = None
         else:
-            if k in ("req", "kreq", "conv"):
+            overridden = override in (True, "middle") and i == 0
+            if k in ("req", "kreq", "conv") and not overridden:
                 if missing is None:
                     missing = name
             else:
-                dflt = {"def": 100 + i, "fac": [], "kdef": 200 + i, "optnone": None, "optdef": 400 + i}[k]
-                if override and i == 0:
-                    dflt = {"def": 900, "optdef": 901, "kdef": 902}[k]
+                dflt = OVERRIDE_DEFAULT[k] if overridden else {"def": 100 + i, "fac": [], "kdef": 200 + i, "optnone": None, "optdef": 400 + i}[k]
                 exp[name] = dflt
+    if override in ("middle", "bottom"):
+        exp["zz"] = 1
     return d, (("MissingField", missing) if missing else exp)
 
 
